@@ -9,7 +9,7 @@
    Tier S unless marked Tier O. *)
 From Coq Require Import List Arith Bool PrimFloat.
 From Knee Require Import Num NumFloat NpList OrdLaws FloatOrder Model.Mapping Model.Rdp
-  Proofs.ListFacts Proofs.MappingFacts Proofs.SegFacts Proofs.RdpFacts.
+  Proofs.ListFacts Proofs.MappingFacts Proofs.SegFacts Proofs.RdpFacts Proofs.RdpUnique Run.RdpTables.
 Import ListNotations.
 Local Open Scope num_scope.
 
@@ -85,3 +85,35 @@ Theorem C04_rdp_code : forall (N : Num) (dist : nat -> nat -> list (T N)) (segco
   C04_code dist segcost r2 t n (without_iters (rdp dist segcost r2 t n)) = 0.
 Proof. exact @rdp_C04_code. Qed.
 Print Assumptions C04_rdp_code.
+
+(* the predicate pins the output down: an output that passes C04_code IS the model's output (so "holds" on the
+   implementation's output implies agreement with the model: the retained set is THE recursive partition) *)
+Theorem C04_code_characterises : forall (N : Num) (dist : nat -> nat -> list (T N)) (segcost : nat -> nat -> T N)
+    (r2 : bool) (t : T N) (n : nat),
+  curved r2 t (trivial_cost r2) = false ->
+  (forall l r, l + 3 <= r -> r <= n -> length (dist l r) = r - l) ->
+  2 <= n ->
+  forall red rem, C04_code dist segcost r2 t n (Some (red, rem)) = 0 ->
+  exists vis, rdp dist segcost r2 t n = Some (red, rem, vis).
+Proof. exact @C04_code_unique. Qed.
+Print Assumptions C04_code_characterises.
+
+(* non-vacuity: rdp.rdp(np.array([[0,1],[1,3],[2,2],[3,5],[4,1],[5,2]]), 0.25) (shortest distance, smape) with the
+   library's own distance / cost values on the three sub-arrays that are visited; the hypotheses hold, the model
+   returns what the implementation returns ([0 3 4 5], [[0,2],[3,0],[4,0]]) in 5 <= 2*6-3 iterations, the predicate
+   accepts it and rejects an over-retaining, an under-retaining and a wrongly split output, and "did not return" *)
+Example C04_example :
+  let dt : dtab := [(0, 6, [0x0.0p+0%float; 0x1.c3da00d7ba4e0p+0%float; 0x1.2d3c008fd1895p-1%float; 0x1.aabfab7668d7ep+1%float; 0x1.91a556151761cp-1%float; 0x0.0p+0%float]);
+     (3, 6, [0x0.0p+0%float; 0x1.6a09e667f3bcdp+0%float; 0x0.0p+0%float])] in
+  let ct : ctab := [(0, 6, 0x1.dfe21982cad3cp-2%float); (0, 4, 0x1.ad2d2d2d2d2d4p-3%float); (3, 6, 0x1.7b425ed097b43p-2%float)] in
+  let t := 0x1p-2%float in
+  @curved FloatNum false t (@trivial_cost FloatNum false) = false /\
+  shape_ok dt = true /\
+  @rdp FloatNum (dist_of dt) (cost_from ct) false t 6 =
+    Some ([0; 3; 4; 5], [(0, 2); (3, 0); (4, 0)], [(0, 6); (0, 4); (3, 6); (3, 5); (4, 6)]) /\
+  @C04_code FloatNum (dist_of dt) (cost_from ct) false t 6 (Some ([0; 3; 4; 5], [(0, 2); (3, 0); (4, 0)])) = 0 /\
+  @C04_code FloatNum (dist_of dt) (cost_from ct) false t 6 (Some ([0; 1; 3; 4; 5], [(0, 0); (1, 1); (3, 0); (4, 0)])) = 5 /\
+  @C04_code FloatNum (dist_of dt) (cost_from ct) false t 6 (Some ([0; 3; 5], [(0, 2); (3, 1)])) = 4 /\
+  @C04_code FloatNum (dist_of dt) (cost_from ct) false t 6 (Some ([0; 2; 4; 5], [(0, 1); (2, 1); (4, 0)])) = 5 /\
+  @C04_code FloatNum (dist_of dt) (cost_from ct) false t 6 None = 1.
+Proof. vm_compute. repeat split. Qed.
